@@ -65,4 +65,11 @@ theorem lineLine_eq (a b c d : Pt) : lineLine a b c d = Gen.lineLine a b c d := 
   · have hb : (a == b) = false := by simpa using h
     simp only [hb, Bool.false_eq_true, if_false, pointInRect_eq]
 
+/-- the per-edge body of the winding loop of `coord_pos_relative_to_ring` (crossing rules, the `<=`/`>=`
+comparisons, which orientation counts, the boundary short-circuit) -/
+theorem ringEdge_eq (p s e : Pt) : ringEdge p s e = Gen.ringEdge p s e := by
+  unfold ringEdge Gen.ringEdge
+  by_cases h1 : s.y ≤ p.y <;> by_cases h2 : e.y ≥ p.y <;> by_cases h3 : e.y ≤ p.y <;>
+    simp [h1, h2, h3, valueInBetween_eq]
+
 end Geo.Proofs.GenKernel
